@@ -67,7 +67,12 @@ def handle (j : Json) : Except String Json := do
     let ops ← (← arrField j "ops").mapM opOf
     let sops ← (← arrField j "sops").mapM sopOf
     let atoms ← (← arrField j "atoms").mapM atomOf
-    let box := boxOf (← natField j "box")
+    let boxN ← natField j "box"
+    -- input guard: the work is (atoms² × operators × (2·box+1)³); refuse requests far outside the property's domain
+    if boxN > 4 then err "C13: box > 4 refused"
+    if atoms.length > 64 then err "C13: more than 64 atoms refused"
+    if ops.length > 200 || sops.length > 200 then err "C13: more than 200 operators refused"
+    let box := boxOf boxN
     let tiny ← floatField j "tiny"
     let cell : Cell Float := Cell.ofLengths a b c ca cb cg
     -- model
